@@ -18,10 +18,16 @@
 (*   makes it exit after VERSION without a PROXY-ERROR line (goptlib's     *)
 (*   ClientSetup returns the parse error without emitting, obfs4proxy      *)
 (*   only logs it).  tor never passes such a value; recorded, not flagged. *)
+(*   AcceptLoopSurvives = FALSE is the second recorded deviation, seen on   *)
+(*   the real binary with RLIMIT_NOFILE = 40 and 39 connections: after the *)
+(*   flood is gone every new connection is refused (ListensWhileRunning).  *)
+(*   Remote peers can do this to a bridge; no listed property owns it.     *)
 (***************************************************************************)
 EXTENDS Integers, Sequences, FiniteSets, TLC, Json
 
 CONSTANTS ProxySyntaxSilent, MaxConns, MaxEnv,
+          AcceptLoopSurvives,   \* FALSE = the code: ANY error from Accept (eg EMFILE while a flood of connections holds all
+                                \* descriptors) ends the accept loop, which closes the listener - the process stays up, deaf
           EnvSet      \* the environments to explore (Envs, or SmallEnvs for the quick configuration)
 
 Vers    == {"unset", "1", "2", "2,1"}
@@ -77,10 +83,11 @@ VARIABLES env, phase,   \* "config" | "running" | "draining" | "exited"
           conns,        \* connections being handled
           asked,        \* kinds of shutdown requests received so far (subset of {"INT", "TERM", "STDIN"})
           ints,         \* number of SIGINTs received (the second one ends a graceful shutdown that is still waiting)
+          accepting,    \* its listeners accept connections
           nenv
-vars == <<env, phase, out, conns, asked, ints, nenv>>
+vars == <<env, phase, out, conns, asked, ints, accepting, nenv>>
 
-Init == env \in EnvSet /\ phase = "config" /\ out = <<>> /\ conns = 0 /\ asked = {} /\ ints = 0 /\ nenv = 0
+Init == env \in EnvSet /\ phase = "config" /\ out = <<>> /\ conns = 0 /\ asked = {} /\ ints = 0 /\ accepting = TRUE /\ nenv = 0
 
 Hard == {"TERM"} \cup (IF env.stdinclose THEN {"STDIN"} ELSE {})
 \* the configuration completes: all lines are written; the process goes on only if a method was launched
@@ -88,22 +95,26 @@ Configure == /\ phase = "config"
              /\ out' = Expected(env).lines
              /\ phase' = IF ~Expected(env).running \/ asked \cap Hard # {} THEN "exited"
                          ELSE IF ints >= 2 THEN "exited" ELSE IF ints = 1 THEN "draining" ELSE "running"
-             /\ UNCHANGED <<env, conns, asked, ints, nenv>>
+             /\ UNCHANGED <<env, conns, asked, ints, nenv, accepting>>
 \* environment
 Ask(s) == /\ nenv < MaxEnv /\ phase # "exited" /\ asked' = asked \cup {s} /\ nenv' = nenv + 1
           /\ ints' = (IF s = "INT" THEN ints + 1 ELSE ints)
-          /\ UNCHANGED <<env, phase, out, conns>>
+          /\ UNCHANGED <<env, phase, out, conns, accepting>>
 Open == /\ nenv < MaxEnv /\ phase = "running" /\ conns < MaxConns /\ conns' = conns + 1 /\ nenv' = nenv + 1
-        /\ UNCHANGED <<env, phase, out, asked, ints>>
+        /\ UNCHANGED <<env, phase, out, asked, ints, accepting>>
 Close == /\ nenv < MaxEnv /\ phase \in {"running", "draining"} /\ conns > 0 /\ conns' = conns - 1 /\ nenv' = nenv + 1
-         /\ UNCHANGED <<env, phase, out, asked, ints>>
+         /\ UNCHANGED <<env, phase, out, asked, ints, accepting>>
+\* a flood of connections exhausts the descriptors: Accept fails once
+Flood == /\ nenv < MaxEnv /\ phase = "running" /\ nenv' = nenv + 1
+         /\ accepting' = (accepting /\ AcceptLoopSurvives)
+         /\ UNCHANGED <<env, phase, out, conns, asked, ints>>
 \* the process reacts
 React == /\ phase \in {"running", "draining"}
          /\ \/ /\ asked \cap Hard # {} /\ phase' = "exited"
             \/ /\ asked \cap Hard = {} /\ "INT" \in asked /\ phase = "running" /\ phase' = "draining"   \* listeners closed
             \/ /\ asked \cap Hard = {} /\ phase = "draining" /\ (conns = 0 \/ ints >= 2) /\ phase' = "exited"
-         /\ UNCHANGED <<env, out, conns, asked, ints, nenv>>
-Next == Configure \/ React \/ Open \/ Close \/ \E s \in {"INT", "TERM", "STDIN"} : Ask(s)
+         /\ UNCHANGED <<env, out, conns, asked, ints, nenv, accepting>>
+Next == Configure \/ React \/ Flood \/ Open \/ Close \/ \E s \in {"INT", "TERM", "STDIN"} : Ask(s)
 Spec == Init /\ [][Next]_vars /\ WF_vars(Configure) /\ WF_vars(React)
 
 \* ---- properties ----
@@ -122,6 +133,8 @@ RunsOnlyIfLaunched == phase \in {"running", "draining"} => Expected(env).running
 \* shutdown requests are honoured whenever they arrive (also during the configuration)
 HardStops == (asked \cap Hard # {}) ~> (phase = "exited")
 GracefulStops == ("INT" \in asked /\ conns = 0) ~> (phase = "exited" \/ conns > 0)
+\* a running process that has not been asked to stop accepts connections
+ListensWhileRunning == (phase = "running" /\ asked = {}) => accepting
 NoSpontaneousExit == [][(phase \in {"running", "draining"} /\ phase' = "exited") => (asked # {})]_vars
 
 \* generation: every environment of the model with its expected outcome
